@@ -1,5 +1,5 @@
 CONSTANTS OwnSca = 500  Check = {"C21","C22","C23"}
-  MaxSteps = 5  Lats = {0, 1, 2, 3}  DsNeg = {}  DsPos = {2, 3}  IndKinds = {"chm", "upd"}  Starts = {0, 65527}  ConnInt = 6  ConnTo = 100  Cancels = TRUE
+  MaxSteps = 5  Lats = {0, 1, 2, 3}  DsNeg = {}  DsPos = {2, 3}  IndKinds = {"chm"}  Starts = {0, 65527}  ConnInt = 6  ConnTo = 100  Cancels = TRUE
 SPECIFICATION MCSpec
 INVARIANTS TypeOK WindowHit ChannelAgree PhyAgree SkipBound NoJumpOverInstant
 CHECK_DEADLOCK FALSE
